@@ -98,6 +98,55 @@ func dDefaultCases() []dDefaultCase {
 			}
 			return "", nil, nil
 		}},
+		{"Slice(custom *tree).Default with a tree 20 levels deep (Validate, Parse)", func() (any, func(), any) {
+			type tree struct {
+				Label string
+				Kids  []*tree
+			}
+			build := func() *tree {
+				root := &tree{Label: "l0"}
+				cur := root
+				for i := 1; i < 20; i++ {
+					k := &tree{Label: fmt.Sprintf("l%d", i)}
+					cur.Kids = []*tree{k}
+					cur = k
+				}
+				return root
+			}
+			for _, mode := range []string{"Validate", "Parse"} {
+				def := build()
+				s := z.Slice(z.CustomFunc(func(p **tree, c z.Ctx) bool { return true })).Default([]*tree{def})
+				var a []*tree
+				var is z.ZogIssueMap
+				if mode == "Validate" {
+					is = s.Validate(&a)
+				} else {
+					is = s.Parse(nil, &a)
+				}
+				if is != nil || len(a) != 1 || a[0] == nil {
+					return fmt.Sprintf("%s: issues %v", mode, z.Issues.SanitizeMap(is)), nil, nil
+				}
+				depth := 0
+				for cur := a[0]; cur != nil; depth++ {
+					cur.Label = "seen:" + cur.Label
+					if len(cur.Kids) == 0 {
+						break
+					}
+					cur = cur.Kids[0]
+				}
+				lvl := 0
+				for cur := def; cur != nil; lvl++ {
+					if strings.HasPrefix(cur.Label, "seen:") {
+						return fmt.Sprintf("%s: relabelling the tree the default was copied to changed the default itself at level %d (of %d)", mode, lvl, depth+1), nil, nil
+					}
+					if len(cur.Kids) == 0 {
+						break
+					}
+					cur = cur.Kids[0]
+				}
+			}
+			return "", nil, nil
+		}},
 		{"Slice(custom [2]*int).Default (Validate)", func() (any, func(), any) {
 			x, y := 1, 2
 			s := z.Slice(z.CustomFunc(func(p *[2]*int, c z.Ctx) bool { return true })).Default([][2]*int{{&x, &y}})
@@ -342,6 +391,149 @@ func dModesAgreeOnNames() (problem string) {
 		ip := render(mk().Parse(map[string]any{"Ñame": val.Ñame, "Émail": val.Émail, "Дата": val.Дата, "": val.Text}, &d))
 		if iv != ip || d != v {
 			return fmt.Sprintf("value %+v: Validate reports [%s] and leaves %+v; Parse of the same data reports [%s] and leaves %+v", val, iv, v, ip, d)
+		}
+	}
+	return ""
+}
+
+// dValidateNilEmbedded: Validate of a value whose embedded pointer is nil, through a schema that names fields promoted through it (and,
+// in the second schema, the embedded pointer itself). The library may refuse such a value loudly (the unchanged tree panics inside
+// reflect); what it may not do is report success for required fields that do not exist, change the value, or answer differently from
+// run to run. Returns the set of outcomes over `runs` runs and whether the value was changed.
+type DStamp struct {
+	Rev  int
+	By   string
+	Note string
+}
+type dStamped struct {
+	*DStamp
+	Title string
+}
+
+func dValidateNilEmbedded(runs int) (outcomes map[string]int, changed bool) {
+	outcomes = map[string]int{}
+	one := func(withPtrKey bool) {
+		sc := z.Schema{"Rev": z.Int().Required(), "By": z.String().Required(), "title": z.String().Required()}
+		if withPtrKey {
+			sc = z.Schema{"Rev": z.Int(), "DStamp": z.Ptr(z.Struct(z.Schema{"Note": z.String().Required()})), "title": z.String()}
+		}
+		v := dStamped{Title: "t"}
+		out := ""
+		func() {
+			defer func() {
+				if r := recover(); r != nil {
+					out = "panic"
+				}
+			}()
+			m := z.Struct(sc).Validate(&v)
+			out = "returned [" + dKeys(m) + "]"
+		}()
+		if v.DStamp != nil || v.Title != "t" {
+			changed = true
+		}
+		outcomes[fmt.Sprintf("ptrKey=%v: %s", withPtrKey, out)]++
+	}
+	for i := 0; i < runs; i++ {
+		one(false)
+		one(true)
+	}
+	return
+}
+
+// dWideAndDeep: (a) Validate of a list of 150 pointers whose last items violate their test; (b) Parse of a record nested 70 levels deep
+// (a recursive schema over a linked list) whose innermost node lacks a required field and has a defaulted one. Size is not a reason to
+// skip a node. Returns a problem description or "".
+type dNode struct {
+	Val  int
+	Tag  string
+	Next *dNode
+}
+
+func dWideAndDeep() string {
+	vals := make([]*int, 150)
+	for i := range vals {
+		x := i + 1
+		if i >= 120 {
+			x = -1
+		}
+		vals[i] = &x
+	}
+	m := z.Slice(z.Ptr(z.Int().GT(0))).Validate(&vals)
+	n := 0
+	for k := range m {
+		if k != "$first" {
+			n++
+		}
+	}
+	if n != 30 {
+		return fmt.Sprintf("Validate of 150 pointers, the last 30 pointing to -1 under Ptr(Int().GT(0)): %d item(s) reported, want 30", n)
+	}
+	rows := make([]struct{ A, B *int }, 80)
+	bad := -5
+	ok := 5
+	for i := range rows {
+		rows[i].A, rows[i].B = &ok, &ok
+	}
+	rows[79].B = &bad
+	m = z.Slice(z.Struct(z.Schema{"A": z.Ptr(z.Int().GT(0)), "B": z.Ptr(z.Int().GT(0))})).Validate(&rows)
+	if len(m) == 0 {
+		return "Validate of 80 rows with two pointer fields each, the last B pointing to -5 under Ptr(Int().GT(0)): no issue"
+	}
+	node := z.Schema{"val": z.Int().Required(), "tag": z.String().Default("dflt")}
+	sch := z.Struct(node)
+	node["next"] = z.Ptr(sch)
+	const depth = 70
+	var data any = map[string]any{"tag": "leaf"} // innermost: val missing
+	for i := 0; i < depth; i++ {
+		data = map[string]any{"val": i, "next": data}
+	}
+	var d dNode
+	m = sch.Parse(data, &d)
+	keys := dKeys(m)
+	if strings.Count(keys, "next") != depth || !strings.HasSuffix(keys, ".val") || strings.Contains(keys, ",") {
+		return fmt.Sprintf("Parse of a list nested %d levels deep whose innermost node lacks the required val: issue keys [%s], want exactly one, at next(x%d).val", depth, trunc(keys, 200), depth)
+	}
+	cur := &d
+	for i := 0; i < depth-1; i++ {
+		if cur.Next == nil {
+			return fmt.Sprintf("Parse of a list nested %d levels deep: level %d was not allocated", depth, i+1)
+		}
+		cur = cur.Next
+	}
+	if cur.Tag != "dflt" {
+		return fmt.Sprintf("Parse of a list nested %d levels deep: the defaulted tag at level %d is %q, want dflt", depth, depth-1, cur.Tag)
+	}
+	return ""
+}
+
+// dRowTransforms: a list of rows, each row with its own PostTransform, one early row holding an invalid cell: Validate of the value and
+// Parse of the same data report the same issues and leave equal values (the transforms of the later rows run in both modes or in neither).
+func dRowTransforms() string {
+	mk := func() *z.SliceSchema {
+		return z.Slice(z.Slice(z.String().Min(2)).PostTransform(func(p any, ctx z.Ctx) error {
+			row := p.(*[]string)
+			for i := range *row {
+				(*row)[i] = strings.ToUpper((*row)[i])
+			}
+			return nil
+		}))
+	}
+	for _, rows := range [][][]string{{{"a"}, {"bb", "cc"}}, {{"aa"}, {"bb"}}, {{"aa", "b"}, {"cc"}, {"dd"}}} {
+		val := make([][]string, len(rows))
+		data := make([]any, len(rows))
+		for i, r := range rows {
+			val[i] = append([]string(nil), r...)
+			cells := make([]any, len(r))
+			for j := range r {
+				cells[j] = r[j]
+			}
+			data[i] = cells
+		}
+		iv := dKeys(mk().Validate(&val))
+		var d [][]string
+		ip := dKeys(mk().Parse(data, &d))
+		if iv != ip || fmt.Sprint(val) != fmt.Sprint(d) {
+			return fmt.Sprintf("rows %v: Validate reports [%s] and leaves %v; Parse of the same data reports [%s] and leaves %v", rows, iv, val, ip, d)
 		}
 	}
 	return ""
